@@ -28,7 +28,7 @@ CASE_LIMIT = {"quick": 240, "thorough": 400}
 PROFILE = {"methods": ["MS", "SS", "DC"], "intgs": ["rk", "expl_euler"], "alg": 0.2,
            "grids": ["uniform", "geometric", "function"], "t0_kinds": ["num", "free"], "T_kinds": ["num", "free"],
            "N": [1, 2, 3], "M": [1, 2], "degrees": [1, 2, 3], "allow_matrix": False, "quad_states": 0.3, "max_states": 2,
-           "time_in_rhs": 0.5}
+           "time_in_rhs": 0.5, "scales": True}
 
 
 def gen_cases(rng, tier):
@@ -87,7 +87,8 @@ def gen_cases(rng, tier):
         for k in range(nst - 1):
             a, b_ = stages[k], stages[k + 1]
             couplings.append({"cid": 900 + k, "from": k, "to": k + 1, "sa": a["states"][0]["name"],
-                              "sb": b_["states"][0]["name"], "use_pv": rng.random() < 0.5})
+                              "sb": b_["states"][0]["name"], "use_pv": rng.random() < 0.5,
+                              "on": rng.choice(["parent", "parent", "to", "from"])})
             if a["T"]["kind"] == "free" or b_["t0"]["kind"] == "free":
                 couplings.append({"cid": 950 + k, "from": k, "to": k + 1, "time": True})
         tmpl_bspline = rng.choice([1, 2]) if (mode == "clone" and rng.random() < 0.3) else 0
@@ -165,7 +166,12 @@ def build_multistage(case):
                 xa = xa[0] if xa.numel() > 1 else xa
                 xb = xb[0] if xb.numel() > 1 else xb
                 rhs = b_.stage.at_t0(xb) + (pv if c["use_pv"] else 0)
-                ocp.subject_to(a.stage.at_tf(xa) == rhs, meta=build.meta_for(c["cid"]))
+                # the coupling may be declared on the parent or on either of the two stages
+                holder = {"parent": ocp, "to": b_.stage, "from": a.stage}[c.get("on", "parent")]
+                if c.get("on", "parent") == "to":
+                    holder.subject_to(rhs == a.stage.at_tf(xa), meta=build.meta_for(c["cid"]))
+                else:
+                    holder.subject_to(a.stage.at_tf(xa) == rhs, meta=build.meta_for(c["cid"]))
         ocp.add_objective(pp * pv ** 2 + 0.3 * pv)
         ocp.solver("ipopt", {"ipopt.max_iter": 0, "ipopt.print_level": 0, "print_time": False,
                              "ipopt.hessian_approximation": "limited-memory"})
